@@ -66,6 +66,15 @@ def gen_cases(ck):
                       "p_rev": float(ck.rng.choice([0.0, 0.5, 1.0])), "shifts": True, "relabel": bool(ck.rng.integers(2)),
                       "shuffle_cells": bool(i % 2), "variant": 1,
                       "tensions": ["maxwell", "random", "inferred"][int(ck.rng.integers(3))]})
+    for i in range(4 if ck.tier == "quick" else 24):
+        # a cell with exactly two neighbours (statics.build_lens): a third cell touches both junctions of the two curved interfaces
+        # between them; every interface still separates exactly two cells and gets its Young-Laplace equation
+        ku = int(ck.rng.integers(1, 6)); kl = int(ck.rng.integers(1, 6))
+        if kl == ku:
+            kl += 1
+        cases.append({"type": "tissue", "kind": "lens", "seed": int(ck.rng.integers(1 << 30)), "k_upper": ku, "k_lower": kl, "h_upper": 1.4, "h_lower": 0.9,
+                      "angle": float(ck.rng.uniform(0, 6.28)), "scale": float(10.0 ** ck.rng.uniform(-1, 1)), "shift": [0.0, 0.0],
+                      "shuffle_cells": bool(i % 2), "p_rev": [0.0, 0.5][i % 2], "shifts": True, "tensions": "random"})
     return cases
 
 
@@ -159,9 +168,11 @@ def analytic_pressures(sc, frame, obs, internal):
 
 def run_tissue(ck, case, reqs, pending):
     np.seterr(all="raise")
-    sc = statics.build_static(case)
+    sc = statics.build_lens(case) if case.get("kind") == "lens" else statics.build_static(case)
     if sc is None:
         ck.count("rejected_tissue"); return
+    if case.get("kind") == "lens":
+        ck.count("lens_tissue")
     statics.solve_setup(sc)
     frame, f = sc.frame, sc.forsys
     obs = impl.observe_frame(frame)
